@@ -13,11 +13,13 @@ f) cleanup_up_to: remove_file is control dependent on Lt(parsed id, keep_from_lo
 g) SegmentIndex::save: File::create takes the tmp path; flush -> sync_all -> rename(tmp, final) in this order; only `save` names "segments.idx" for writing.
 h) Flusher::flush: SegmentIndexBuilder::add_segment_entry is dominated by successful completion of the per-type write loop.
 i) shutdown: flush_all precedes shutdown_all; on_shutdown awaits wal.shutdown() before returning Ok.
+k) writer side of the same lockstep: the WAL rotates when entries_written reaches CONFIG.engine.fill_factor * event_per_zone, the same product that sizes the memtable (ShardContext::new) and that
+   find_next_wal_id uses to decide roll-over at start-up; entries_written is only ever (re)initialised from the lines already in the newest log file (count_entries) or incremented by one per appended entry.
 j) every L0 id allocation site (next_for_level(0) feeding queue_for_flush) is control dependent on MemTable::is_full (segment-id / WAL-log-id lockstep).
 Not decided: crash points between steps, WAL replay vs published segment duplication, buffered WAL prefix semantics, fsync actually reaching disk.
 """
-FLOOR = 11
-REQUIRED = ["C01.a", "C01.b1", "C01.b2", "C01.c", "C01.d", "C01.e", "C01.f", "C01.g", "C01.h", "C01.i", "C01.j"]
+FLOOR = 12
+REQUIRED = ["C01.a", "C01.b1", "C01.b2", "C01.c", "C01.d", "C01.e", "C01.f", "C01.g", "C01.h", "C01.i", "C01.j", "C01.k"]
 ASSUMPTIONS = ["tokio mpsc mailbox is FIFO", "WalHandle::append completing means the entry was handed to the WAL writer task"]
 
 FIVE = ["timestamp", "context_id", "event_type", "payload", "event_id"]
@@ -371,6 +373,61 @@ def run(ctx):
         return bad
     ctx.run("C01.i", "K1 DOM", "frontend::start_all / worker::on_shutdown", "graceful shutdown flushes before stopping shards and drains the WAL", i_)
 
+    # ------------------------------------------------------------------ k
+    def k(inst):
+        bad = []
+        # (i) one capacity expression at the three sites
+        sites = {"memtable capacity": F.fn("ShardContext::new"), "start-up roll-over": F.fn("InnerWalWriter::find_next_wal_id")}
+        rot = [kk for kk in F.find(r"^engine::core::wal::wal_handle::WalHandle::spawn_wal_thread") if F.fn_exact(kk).find_calls(r"InnerWalWriter::rotate_log_file$")]
+        if len(rot) != 1:
+            raise AnchorMissing("WAL writer loop calling rotate_log_file (%d)" % len(rot))
+        sites["WAL rotation"] = F.fn_exact(rot[0])
+        for nm, b in sites.items():
+            cp = _capacity_products(b)
+            inst.sites.append("%s: fill_factor*event_per_zone at %d site(s)" % (nm, len(cp)))
+            if not cp:
+                bad.append(("capacity-expression:%s" % nm, "%s no longer uses CONFIG.engine.fill_factor * event_per_zone: memtable flush and WAL rotation fall out of step" % nm, None))
+        wb = sites["WAL rotation"]
+        rc = one(wb, r"InnerWalWriter::rotate_log_file$")
+        caps = {l for _, l in _capacity_products(wb)}
+
+        def acc(op, A, B, truth):
+            ea = has_origin(A, None, proj_contains=[".entries_written"])
+            cb = any(l[0] == "binop" and l[1].startswith("Mul") for l in B)
+            return ea and cb and ((op == "Ge" and truth) or (op == "Lt" and not truth))
+        if not cmp_guard(wb, rc.bb, acc):
+            bad.append(("rotation-guard", "the WAL does not rotate exactly under entries_written >= fill_factor*event_per_zone", None))
+        # (ii) writers of entries_written
+        n = 0
+        for key in F.find(r"^engine::core::wal::(inner_wal_writer|wal_handle)::"):
+            if "__CALLSITE" in key:
+                continue
+            b = F.fn_exact(key)
+            for blk in b.live_blocks():
+                for st in b.blocks[blk]["s"]:
+                    if "a" in st and ".entries_written" in st["a"][1:]:
+                        n += 1
+                        L = b.origins(st["v"]["o"]) if st["v"]["r"] == "use" else {(st["v"]["r"],)}
+                        ok = all((l[0] == "binop" and l[1].startswith("Add")) or (l[0] == "call" and norm_path(l[1]).endswith("count_entries")) for l in L)
+                        if not ok:
+                            bad.append(("entries-written-source:%s" % norm_path(key), "%s sets entries_written from %s (must be count_entries(dir) or += 1)" % (key, fmt_leaves(L) if st["v"]["r"] == "use" else st["v"]["r"]), None))
+                t = b.blocks[blk]["t"]
+                if t["t"] == "call" and t.get("dest") and ".entries_written" in t["dest"][1:]:
+                    n += 1
+                    nm = norm_path(t["f"].get("p") or t["f"].get("u") or "")
+                    if not nm.endswith("count_entries"):
+                        bad.append(("entries-written-source:%s" % norm_path(key), "%s sets entries_written from %s" % (key, nm), None))
+            for (bb_, j_, v_, _d) in b.aggregates("InnerWalWriter"):
+                n += 1
+                L = b.origins(v_["o"][v_["fields"].index("entries_written")])
+                if not all(l[0] == "call" and norm_path(l[1]).endswith("count_entries") for l in L):
+                    bad.append(("entries-written-init", "InnerWalWriter is constructed with entries_written from %s" % fmt_leaves(L), None))
+        inst.sites.append("writers of entries_written examined: %d" % n)
+        if n < 3:
+            raise AnchorMissing("writers of entries_written: %d" % n)
+        return bad
+    ctx.run("C01.k", "K11 SIB + K7", "WAL rotation counter", "the WAL rotates in step with the memtable: same capacity, counter restored from the reopened log", k)
+
     # ------------------------------------------------------------------ j
     def j(inst):
         cg = CallGraph(F)
@@ -400,6 +457,21 @@ def run(ctx):
                             "%s allocates an L0 segment id (later used as WAL keep-from id) without the memtable being full: the WAL has not rotated" % k, None))
         return bad
     ctx.run("C01.j", "K11 SIB", "L0 rotation sites", "segment-id / WAL-log-id lockstep: L0 ids advance only when the memtable (and hence the WAL) rotates", j)
+
+
+def _capacity_products(body):
+    """Mul statements whose operands are CONFIG.engine.fill_factor and CONFIG.engine.event_per_zone"""
+    out = []
+    for blk in body.live_blocks():
+        for st in body.blocks[blk]["s"]:
+            v = st.get("v")
+            if v and v["r"] == "bin" and v["op"].startswith("Mul"):
+                A, B = body.origins(v["a"]), body.origins(v["b"])
+                fa = has_origin(A, "static", name_re=r"CONFIG$", proj_contains=[".engine", ".fill_factor"]) or has_origin(B, "static", name_re=r"CONFIG$", proj_contains=[".engine", ".fill_factor"])
+                ez = has_origin(A, "static", name_re=r"CONFIG$", proj_contains=[".engine", ".event_per_zone"]) or has_origin(B, "static", name_re=r"CONFIG$", proj_contains=[".engine", ".event_per_zone"])
+                if fa and ez:
+                    out.append((blk, st["a"][0]))
+    return out
 
 
 def _ops(v):
